@@ -375,7 +375,7 @@ pub fn spec() -> PropSpec {
       Check {
         name: "histories-bfs",
         rule: "explicit-state BFS: state = up to 3 real Server instances + model; every enabled action executed on the real objects (refused double punctures included); digest = per-instance punctured sets in instance order, merge check on observable + canonical exported key material; invariant in every state and for every instance: eval answers iff registered and unpunctured in that key's history, answers equal the original server's, public key unchanged; for the instance touched by the action: verifiable answers verify against the original public key and export-now/import-into-fresh gives an indistinguishable server that re-exports the same bytes",
-        gen: |tier| vec![json!({"depth": if tier.thorough() { 5 } else { 6 }})],
+        gen: |tier| vec![json!({"depth": if tier.thorough() { 7 } else { 5 }})],
         run: run_bfs,
         min_counts: &[("states", 1000), ("refused_double_punctures", 100), ("export_import_checks", 1000), ("merges", 100), ("traces_validated", 4)],
       },
